@@ -25,7 +25,8 @@ EXPLANATION = (
     " (R8) the S3 lock owner token is a uuid4 drawn in the provider's own __init__; (R9) the lock directory is named only as the argument of create_lock; (R10) every provider a backend's create_lock builds is built on the canonical resolution of the path."
     ' (R11) the O_EXCL fallback lock is broken only under `age > k * timeout`.'
     ' (R12) lock ages use UTC-aware clocks (C20.R11); (R13) release() lets go on every path past its guard, exception edges included; (R14) the polling provider deletes an expired lock only when BOTH LastModified and ETag of the second HEAD equal the first (separately, or as one tuple / NamedTuple built the same way); R3/R4/R5 look through helpers returning the PUT response and through boolean record fields carrying `content == lock_id`.'
-    " R10 holds on EVERY way the provider's path argument gets its value.")
+    " R10 holds on EVERY way the provider's path argument gets its value."
+    " R2: one clock per deadline test, monotonic for the local lock; R5: fallback mode is claimed only after an O_EXCL create, release() clears the held flag; R10: the provider path IS the resolver's result; R11: age = time.time() - mtime.")
 NOT_DECIDED = "kernel / S3 semantics, interleavings, numeric timeout bounds"
 
 
@@ -99,10 +100,21 @@ def lock_identity_canonical(ctx: Ctx, rid: str = "C19.R10") -> None:
                 srcs = resolve_value(ctx, f, a, c.id)
                 per_src = []
                 for src, sat in srcs:
-                    org = sl.origins(src, sat) if src is not None else {"calls": set()}
-                    cs = set(org["calls"]) | ({src} if isinstance(src, ast.Call) else set())
-                    per_src.append(any(isinstance(x, ast.Call) and isinstance(x.func, ast.Attribute) and x.func.attr == resolver and x.args
-                                       and (pname in names_in(x.args[0]) or pname in sl.origins(x.args[0], sat)["names"]) for x in cs))
+                    # the argument IS the resolver's result (or a path join that starts with it) - not a name derived from it
+                    # through hash() / relpath / another directory (a salted hash differs per process; a second directory
+                    # depends on TMPDIR: contenders then lock different files)
+                    def is_resolved(x: Optional[ast.AST], at_: int, depth: int = 0) -> bool:
+                        if x is None or depth > 4:
+                            return False
+                        if isinstance(x, ast.Call) and isinstance(x.func, ast.Attribute) and x.func.attr == resolver and x.args:
+                            return pname in names_in(x.args[0]) or pname in sl.origins(x.args[0], at_)["names"]
+                        if isinstance(x, ast.Call) and (dotted(x.func) or "") in ("os.path.join", "posixpath.join") and x.args:
+                            return is_resolved(x.args[0], at_, depth + 1)
+                        if isinstance(x, ast.Name):
+                            inner = resolve_value(ctx, f, x, at_)
+                            return bool(inner) and all(y is not x and is_resolved(y, a_, depth + 1) for y, a_ in inner)
+                        return False
+                    per_src.append(is_resolved(src, sat))
                 if per_src and all(per_src):
                     hit = True
             ctx.ob(rid, f, f"lock provider built on {resolver}({pname})", c, hit,
@@ -127,7 +139,8 @@ def fallback_break_only_when_stale(ctx: Ctx, rid: str = "C19.R11") -> None:
                 continue
             lo, ro = sl.origins(e.left, at), sl.origins(e.comparators[0], at)
             aged = any(isinstance(c, ast.Call) and (dotted(c.func) or "").endswith("getmtime") for c in lo["calls"]) and \
-                any(isinstance(c, ast.Call) and (dotted(c.func) or "") in ("time.time", "time.monotonic") for c in lo["calls"])
+                any(isinstance(c, ast.Call) and (dotted(c.func) or "") == "time.time" for c in lo["calls"]) and \
+                not any(isinstance(c, ast.Call) and (dotted(c.func) or "") in ("time.monotonic", "time.perf_counter", "time.process_time") for c in lo["calls"])
             bound = any(nm.endswith("timeout") for nm in ro["names"])
             if aged and bound:
                 ok = True
@@ -449,6 +462,18 @@ def r2(ctx: Ctx) -> None:
         # the deadline is derived from the configured timeout
         ok = bool(dl)  # _deadline_branches only accepts limits derived from the configured timeout
         ctx.ob("C19.R2", f, "the deadline derives from self.timeout", dl[0] if dl else None, ok, "configured timeout is honoured")
+        # one clock on both sides of the deadline test; the local lock's deadline runs on the monotonic clock (a wall-clock
+        # step while a contender waits must neither expire it early nor keep it blocked past its timeout)
+        sl_ = ctx.slicer(f)
+        for b in dl:
+            ec = effective_compare(ctx, f, b)
+            clocks = {(dotted(c.func) or "") for side in (ec[0].left, ec[0].comparators[0]) for c in sl_.origins(side, ec[1])["calls"]
+                      if isinstance(c, ast.Call) and (dotted(c.func) or "") in ("time.time", "time.monotonic", "time.perf_counter")}
+            want = {"time.monotonic"} if q.startswith("file_lock") else None
+            okc = len(clocks) == 1 and (want is None or clocks == want)
+            ctx.ob("C19.R2", f, "the deadline test uses one clock" + (" (monotonic)" if want else ""), b, okc,
+                   f"clock(s) feeding the comparison: {sorted(clocks)}" + ("" if okc else " - a wall-clock step (NTP, DST, manual) while a "
+                   "contender waits moves the deadline: the acquirer does not fail within its configured timeout"))
     for f in lock_functions(ctx):
         for n in ctx.cfg(f).calls():
             c = n.callee
